@@ -3028,7 +3028,7 @@ class WorkflowGraph(object):
         bindings = expand_bindings(bindings, stage_idx)
         do_while = {key: do_while[key] for key in do_while if key != 'bindings'}
 
-        foreign_components = self._concrete.get_component_identifiers(True, False)
+        foreign_components = self.configuration._unreplicated.get_component_identifiers(True, False)
 
         dw_components, _ = experiment.model.frontends.flowir.instantiate_dowhile(
             do_while, bindings, stage_idx, dw_comp_instantiate_name, foreign_components, label=dw_label,
